@@ -1273,7 +1273,10 @@ func (g *gen) stCall() *Node {
 	} else {
 		call = &Node{K: "call", S: f.name, A: args}
 	}
-	if len(f.results) == 0 || g.chance(15) {
+	if len(f.results) == 0 || g.chance(15) || len(f.results) > 1 && g.chance(20) {
+		if len(f.results) > 1 {
+			g.mark("discarded-multi-result")
+		}
 		return &Node{K: "expr", A: []*Node{call}}
 	}
 	// bind the results to new variables (or blank)
